@@ -17,6 +17,7 @@ from labtech.types import ResultMeta, Runner, RunnerBackend, TaskResult
 
 import lv_universe as U
 from common import g_bool, g_list, g_nats, g_opt, g_pair, g_val, subdir
+from common import storage_of
 
 logging.getLogger('labtech').setLevel(logging.CRITICAL)
 
@@ -512,7 +513,7 @@ def run_case(case, workdir=None, backend_factory=None, catch_ki=False, around_ru
     pure = pure_ok(case)
     for t in case['pre']:
         obj = built.canon[t]
-        obj._lt.cache.save(lab._storage, obj, TaskResult(value=pure[t], meta=ResultMeta(
+        obj._lt.cache.save(storage_of(lab), obj, TaskResult(value=pure[t], meta=ResultMeta(
             start=datetime(2020, 1, 1, 0, 0, t), duration=timedelta(seconds=t + 1))))
     obs = dict(outcome=None, returned=None, exc=None)
     import contextlib
@@ -568,7 +569,7 @@ def run_case(case, workdir=None, backend_factory=None, catch_ki=False, around_ru
     unloadable = []
     for t in obs['final_store']:
         try:
-            built.canon[t]._lt.cache.load_result_with_meta(lab._storage, built.canon[t])
+            built.canon[t]._lt.cache.load_result_with_meta(storage_of(lab), built.canon[t])
         except BaseException:   # noqa
             unloadable.append(t)
     obs['unloadable'] = unloadable
